@@ -2,36 +2,38 @@
    it binds variables only to terms of the dataset. *)
 Require Import KV.Update.Spec KV.Update.Model KV.Update.Bgp KV.Update.SetProofs.
 
-Definition sol_closed (D : dataset) (sol : solution) : Prop :=
-  forall v t a, lookup v sol = Some t -> In a (atoms t) -> term_in_dataset a D.
-(* every dictionary entry of t is one of the dataset *)
-Definition sub_of (D : dataset) (t : term) : Prop := forall a, In a (atoms t) -> term_in_dataset a D.
+(* a dictionary entry of the dataset, or of one of the constants W of the WHERE clause *)
+Definition known_atom (D : dataset) (W : list term) (a : term) : Prop :=
+  term_in_dataset a D \/ exists c, In c W /\ In a (atoms c).
+Definition sol_closed (D : dataset) (W : list term) (sol : solution) : Prop :=
+  forall v t a, lookup v sol = Some t -> In a (atoms t) -> known_atom D W a.
+Definition sub_of (D : dataset) (W : list term) (t : term) : Prop := forall a, In a (atoms t) -> known_atom D W a.
 
-Lemma match_pt_closed : forall D pt t sol sol',
-  sol_closed D sol -> sub_of D t -> match_pt pt t sol = Some sol' -> sol_closed D sol'.
+Lemma match_pt_closed : forall D W pt t sol sol',
+  sol_closed D W sol -> sub_of D W t -> match_pt pt t sol = Some sol' -> sol_closed D W sol'.
 Proof.
-  intros D; induction pt as [v|c|pa IHa pb IHb pc IHc]; intros t sol sol' Hc Ht H; simpl in H.
+  intros D W; induction pt as [v|c|pa IHa pb IHb pc IHc]; intros t sol sol' Hc Ht H; simpl in H.
   - destruct (lookup v sol) as [t'|] eqn:E.
     + destruct (term_eqb t' t); inversion H; subst; auto.
     + inversion H; subst. intros v0 t0 a Hl Ha. simpl in Hl. destruct (N.eqb v0 v); [inversion Hl; subst; auto | eauto].
   - destruct (term_eqb c t); inversion H; subst; auto.
   - destruct t as [x|x|k l|s p o]; try discriminate.
-    assert (Hs : sub_of D s) by (intros a Ha; apply Ht; simpl; apply in_app_iff; auto).
-    assert (Hp : sub_of D p) by (intros a Ha; apply Ht; simpl; apply in_app_iff; right; apply in_app_iff; auto).
-    assert (Ho : sub_of D o) by (intros a Ha; apply Ht; simpl; apply in_app_iff; right; apply in_app_iff; auto).
+    assert (Hs : sub_of D W s) by (intros a Ha; apply Ht; simpl; apply in_app_iff; auto).
+    assert (Hp : sub_of D W p) by (intros a Ha; apply Ht; simpl; apply in_app_iff; right; apply in_app_iff; auto).
+    assert (Ho : sub_of D W o) by (intros a Ha; apply Ht; simpl; apply in_app_iff; right; apply in_app_iff; auto).
     destruct (match_pt pa s sol) as [s1|] eqn:E1; [|discriminate].
     destruct (match_pt pb p s1) as [s2|] eqn:E2; [|discriminate].
     eapply IHc; [| |exact H]; auto. eapply IHb; [| |exact E2]; auto. eapply IHa; [| |exact E1]; auto.
 Qed.
 
-Lemma match_tp_closed : forall D tp q sol sol',
-  sol_closed D sol -> In q (dq D) -> match_tp tp q sol = Some sol' -> sol_closed D sol'.
+Lemma match_tp_closed : forall D W tp q sol sol',
+  sol_closed D W sol -> In q (dq D) -> match_tp tp q sol = Some sol' -> sol_closed D W sol'.
 Proof.
-  intros D tp q sol sol' Hc Hq H. unfold match_tp in H.
+  intros D W tp q sol sol' Hc Hq H. unfold match_tp in H.
   destruct (match_pt (fst (fst tp)) (qs q) sol) as [s1|] eqn:E1; [|discriminate].
   destruct (match_pt (snd (fst tp)) (qp q) s1) as [s2|] eqn:E2; [|discriminate].
-  assert (T : forall t, (qs q = t \/ qp q = t \/ qo q = t \/ qg q = Some t) -> sub_of D t)
-    by (intros t Ht a Ha; exists t; split; [right; exists q; auto | exact Ha]).
+  assert (T : forall t, (qs q = t \/ qp q = t \/ qo q = t \/ qg q = Some t) -> sub_of D W t)
+    by (intros t Ht a Ha; left; exists t; split; [right; exists q; auto | exact Ha]).
   eapply match_pt_closed; [| |exact H]; [|apply T; auto].
   eapply match_pt_closed; [| |exact E2]; [|apply T; auto].
   eapply match_pt_closed; [| |exact E1]; [auto|apply T; auto].
@@ -45,10 +47,10 @@ Proof.
   - destruct (IH _ H) as [x [Hx Hf]]; exists x; auto.
 Qed.
 
-Lemma eval_tps_closed : forall D tps cands sols,
-  (forall q, In q cands -> In q (dq D)) -> Forall (sol_closed D) sols -> Forall (sol_closed D) (eval_tps tps cands sols).
+Lemma eval_tps_closed : forall D W tps cands sols,
+  (forall q, In q cands -> In q (dq D)) -> Forall (sol_closed D W) sols -> Forall (sol_closed D W) (eval_tps tps cands sols).
 Proof.
-  intros D tps cands; induction tps as [|tp r IH]; intros sols Hc Hs; simpl; auto.
+  intros D W tps cands; induction tps as [|tp r IH]; intros sols Hc Hs; simpl; auto.
   apply IH; auto. apply Forall_forall. intros s Hs'. apply in_flat_map in Hs'. destruct Hs' as [sol [Hsol Hin]].
   apply filter_map_In in Hin. destruct Hin as [q [Hq Hm]].
   eapply match_tp_closed; eauto. eapply Forall_forall in Hs; eauto.
@@ -57,36 +59,46 @@ Qed.
 Lemma in_graph_sub : forall g D q, In q (in_graph g D) -> In q (dq D).
 Proof. intros g D q H. unfold in_graph in H. apply filter_In in H. tauto. Qed.
 
-Lemma named_graph_term : forall D g, In g (named_graphs D) -> sub_of D g.
+Lemma named_graph_term : forall D W g, In g (named_graphs D) -> sub_of D W g.
 Proof.
-  intros D g H a Ha. exists g. split; [|exact Ha]. unfold named_graphs, tunion in H. apply (In_union term_eqb term_eqb_spec) in H.
+  intros D W g H a Ha. left. exists g. split; [|exact Ha]. unfold named_graphs, tunion in H. apply (In_union term_eqb term_eqb_spec) in H.
   destruct H as [H|H]; [left; auto|]. unfold graph_names in H. apply in_flat_map in H. destruct H as [q [Hq Hg]].
   destruct (qg q) as [g'|] eqn:E; simpl in Hg; [|tauto]. destruct Hg as [<-|[]]. right; exists q; auto.
 Qed.
 
-Lemma eval_block_closed : forall D sols b, Forall (sol_closed D) sols -> Forall (sol_closed D) (eval_block D sols b).
+Lemma eval_block_closed : forall D W sols b, incl (block_terms b) W ->
+  Forall (sol_closed D W) sols -> Forall (sol_closed D W) (eval_block D sols b).
 Proof.
-  intros D sols [sc tps] Hs. unfold eval_block; cbn [fst snd]. destruct sc as [|g|v].
+  intros D W sols [sc tps] HW Hs. unfold eval_block; cbn [fst snd]. destruct sc as [|g|v|v rows].
   - apply eval_tps_closed; auto. apply in_graph_sub.
   - destruct (tmem g (named_graphs D)); [|constructor]. apply eval_tps_closed; auto. apply in_graph_sub.
   - apply Forall_forall. intros s Hin. apply in_flat_map in Hin. destruct Hin as [sol [Hsol Hin]].
     apply in_flat_map in Hin. destruct Hin as [g [Hg Hin]].
     destruct (match_pt (PVar v) g sol) as [sol'|] eqn:E; [|simpl in Hin; contradiction].
-    assert (Hc : sol_closed D sol') by (eapply match_pt_closed; [| |exact E]; [eapply Forall_forall in Hs; eauto | apply named_graph_term; auto]).
-    assert (X : Forall (sol_closed D) (eval_tps tps (in_graph (Some g) D) [sol'])) by (apply eval_tps_closed; [apply in_graph_sub | constructor; auto]).
+    assert (Hc : sol_closed D W sol') by (eapply match_pt_closed; [| |exact E]; [eapply Forall_forall in Hs; eauto | apply named_graph_term; auto]).
+    assert (X : Forall (sol_closed D W) (eval_tps tps (in_graph (Some g) D) [sol'])) by (apply eval_tps_closed; [apply in_graph_sub | constructor; auto]).
     eapply Forall_forall in X; eauto.
+  - apply Forall_forall. intros s Hin. apply in_flat_map in Hin. destruct Hin as [sol [Hsol Hin]].
+    apply filter_map_In in Hin. destruct Hin as [t [Ht Hm]].
+    eapply match_pt_closed; [| |exact Hm]; [eapply Forall_forall in Hs; eauto|].
+    intros a Ha. right. exists t. split; [|exact Ha]. apply HW. unfold block_terms; cbn [fst]. apply in_app_iff; left; exact Ht.
 Qed.
 
 Theorem eval_gwhere_closed : forall w D sol v t a,
   In sol (eval_gwhere w D) -> lookup v sol = Some t -> In a (atoms t) ->
   term_in_dataset a D \/ exists c, In c (gwhere_terms w) /\ In a (atoms c).
 Proof.
-  intros w D sol v t a Hin Hl Hat. left. unfold eval_gwhere in Hin. apply in_flat_map in Hin. destruct Hin as [bs [_ Hin]].
-  assert (G : forall bs0 sols, Forall (sol_closed D) sols -> Forall (sol_closed D) (fold_left (eval_block D) bs0 sols)).
-  { induction bs0 as [|b r IH]; intros sols Hs; simpl; auto. apply IH. apply eval_block_closed; auto. }
-  assert (X : Forall (sol_closed D) (eval_join D bs)).
-  { apply G. constructor; [|constructor]. intros v0 t0 a0 H0; discriminate. }
-  eapply Forall_forall in X; eauto.
+  intros w D sol v t a Hin Hl Hat. unfold eval_gwhere in Hin. apply in_flat_map in Hin. destruct Hin as [bs [Hbs Hin]].
+  set (W := gwhere_terms w).
+  assert (HW : forall b, In b bs -> incl (block_terms b) W).
+  { intros b Hb x Hx. unfold W, gwhere_terms. apply in_flat_map. exists bs. split; auto. apply in_flat_map. exists b. auto. }
+  assert (G : forall bs0 sols, (forall b, In b bs0 -> incl (block_terms b) W) ->
+                              Forall (sol_closed D W) sols -> Forall (sol_closed D W) (fold_left (eval_block D) bs0 sols)).
+  { induction bs0 as [|b r IH]; intros sols Hb Hs; simpl; auto. apply IH; [intros b0 H0; apply Hb; simpl; auto|].
+    apply eval_block_closed; auto. apply Hb; simpl; auto. }
+  assert (X : Forall (sol_closed D W) (eval_join D bs)).
+  { apply G; auto. constructor; [|constructor]. intros v0 t0 a0 H0; discriminate. }
+  eapply Forall_forall in X; eauto. exact (X v t a Hl Hat).
 Qed.
 
 (* ---- regression: the executor before the repair 67601f1 (`a` read as the word `a`) violated the
